@@ -31,10 +31,15 @@ fn legend() -> (Vec<String>, Vec<String>) {
 
 /// independent decoder of the LSP delta encoding
 pub fn decode(data: &[u64]) -> Result<Vec<STok>, String> {
+    let (types, mods) = legend();
+    decode_with(data, &types, &mods)
+}
+
+/// decoder for an explicitly given legend (the one a server announced in `initialize`)
+pub fn decode_with(data: &[u64], types: &[String], mods: &[String]) -> Result<Vec<STok>, String> {
     if data.len() % 5 != 0 {
         return Err(format!("data length {} is not a multiple of 5", data.len()));
     }
-    let (types, mods) = legend();
     let mut out = vec![];
     let (mut line, mut start) = (0u64, 0u64);
     for (i, c) in data.chunks(5).enumerate() {
@@ -127,6 +132,46 @@ fn request_tokens_after(previous: Option<&str>, text: &str) -> Result<Vec<STok>,
     let res = r.get(&id).and_then(|r| r.get("result")).ok_or("no result")?;
     let data: Vec<u64> = res["data"].as_array().ok_or("no data array")?.iter().map(|v| v.as_u64().unwrap_or(u64::MAX)).collect();
     decode(&data)
+}
+
+/// client capability variants for the semantic-token legend: what a client says it can render
+/// must not change what the tokens mean under the legend the server announces
+pub fn legend_client_capabilities(k: usize) -> Value {
+    let all = ["namespace", "type", "class", "enum", "interface", "struct", "typeParameter", "parameter", "variable", "property", "enumMember", "event", "function", "method", "macro", "keyword", "modifier", "comment", "string", "number", "regexp", "operator"];
+    let st = |types: Vec<&str>| json!({"textDocument": {"semanticTokens": {"requests": {"full": true}, "tokenTypes": types, "tokenModifiers": ["declaration"], "formats": ["relative"]}}});
+    match k % 4 {
+        0 => json!({}),
+        1 => st(all.to_vec()),
+        // a client that does not list `comment` / lists the types in another order
+        2 => st(all.iter().cloned().filter(|t| *t != "comment" && *t != "keyword").collect()),
+        _ => st(all.iter().rev().cloned().collect()),
+    }
+}
+
+/// the same request against the release binary (the capabilities of `main.rs`), decoded with
+/// the legend of that session's InitializeResult
+pub fn request_tokens_binary(text: &str, caps: Value) -> Result<Vec<STok>, String> {
+    let mut s = Session::with_capabilities(caps);
+    s.open(URI, text);
+    let id = s.request("textDocument/semanticTokens/full", doc_request_params("textDocument/semanticTokens/full", URI));
+    s.msgs.push(request(100_000, "shutdown", Value::Null));
+    s.msgs.push(notification("exit", Value::Null));
+    let bytes: Vec<u8> = s.msgs.iter().flat_map(frame).collect();
+    let o = crate::procdrv::run_chunks(&[bytes], false, std::time::Duration::from_secs(20));
+    if o.timed_out || o.frame_error.is_some() {
+        return Err(format!("binary session failed: timed out {} {:?}", o.timed_out, o.frame_error));
+    }
+    let find = |id: i64| o.frames.iter().find(|f| f.get("id").and_then(|v| v.as_i64()) == Some(id) && f.get("method").is_none());
+    let init = find(0).ok_or("no initialize response")?;
+    let lg = &init["result"]["capabilities"]["semanticTokensProvider"]["legend"];
+    let strs = |v: &Value| -> Vec<String> { v.as_array().map(|a| a.iter().filter_map(|x| x.as_str().map(|s| s.to_string())).collect()).unwrap_or_default() };
+    let (types, mods) = (strs(&lg["tokenTypes"]), strs(&lg["tokenModifiers"]));
+    if types.is_empty() {
+        return Err(format!("no legend announced: {}", init));
+    }
+    let res = find(id).and_then(|r| r.get("result")).ok_or("no result")?;
+    let data: Vec<u64> = res["data"].as_array().ok_or("no data array")?.iter().map(|v| v.as_u64().unwrap_or(u64::MAX)).collect();
+    decode_with(&data, &types, &mods)
 }
 
 fn lexical_class(k: &RKind) -> Option<&'static str> {
@@ -364,6 +409,37 @@ pub fn run(tier: Tier) -> Report {
         })
         .collect();
     fails.extend(hist);
+    // the release binary (legend and capabilities of main.rs) with four kinds of clients
+    let bin_items: Vec<&progs::Item> = items.iter().filter(|it| progs::always_included(it.family) || it.family == "scenario-permutations").step_by(tier.pick(40, 4)).collect();
+    let bin_fails: Vec<Failure> = bin_items
+        .par_iter()
+        .enumerate()
+        .flat_map_iter(|(i, it)| {
+            let mut out = vec![];
+            let doc = Doc::new(it, [Layout::Pretty, Layout::Crlf][i % 2], print_program(&it.program).decl_spans.iter().map(|s| s.0).collect());
+            let want = expected(&doc);
+            for k in 0..4 {
+                evals.fetch_add(1, Ordering::Relaxed);
+                let caps = legend_client_capabilities(k);
+                match request_tokens_binary(doc.text(), caps.clone()) {
+                    Err(e) => out.push(Failure { key: "semtok:binary:error".into(), case: doc.case(json!({"client_capabilities": caps})), detail: e }),
+                    Ok(got) => {
+                        let strip = |v: &[STok]| -> Vec<(u32, u32, String, bool)> { v.iter().map(|t| (t.line, t.start, t.ty.clone(), t.declaration)).collect() };
+                        if strip(&got) != strip(&want) {
+                            let j = got.iter().zip(&want).position(|(a, b)| (a.line, a.start, &a.ty, a.declaration) != (b.line, b.start, &b.ty, b.declaration)).unwrap_or(0);
+                            out.push(Failure {
+                                key: "semtok:binary:classification-under-the-announced-legend".into(),
+                                case: doc.case(json!({"client_capabilities": caps, "mode": "process"})),
+                                detail: format!("client capabilities variant {}: token #{}: got {:?}, expected {:?}", k, j, got.get(j), want.get(j)),
+                            });
+                        }
+                    }
+                }
+            }
+            out
+        })
+        .collect();
+    fails.extend(bin_fails);
     let classified = evals.load(Ordering::Relaxed);
     // well-formedness on arbitrary documents
     let toks = Strings::new(SIGMA_TOK, tier.pick(3, 4));
@@ -401,6 +477,20 @@ pub fn run(tier: Tier) -> Report {
 
 pub fn replay(case: &Value) -> Vec<Failure> {
     let t = case["text"].as_str().unwrap_or("");
+    if case["request"]["mode"] == json!("process") {
+        // re-decided against the fresh in-process answer (same classification, announced legend)
+        return match (request_tokens_binary(t, case["request"]["client_capabilities"].clone()), request_tokens(t)) {
+            (Ok(b), Ok(p)) => {
+                let strip = |v: &[STok]| -> Vec<(u32, u32, String, bool)> { v.iter().map(|t| (t.line, t.start, t.ty.clone(), t.declaration)).collect() };
+                if strip(&b) != strip(&p) {
+                    vec![Failure { key: "semtok:binary:classification-under-the-announced-legend".into(), case: case.clone(), detail: format!("binary {:?}\nin process {:?}", b, p) }]
+                } else {
+                    vec![]
+                }
+            }
+            (Err(e), _) | (_, Err(e)) => vec![Failure { key: "semtok:binary:error".into(), case: case.clone(), detail: e }],
+        };
+    }
     match request_tokens_after(case["previous_text"].as_str(), t) {
         Err(e) => vec![Failure { key: "semtok:error".into(), case: case.clone(), detail: e }],
         Ok(g) => {
